@@ -186,6 +186,15 @@ pub fn select_zero<T: SelectZero + NumBits>(cx: &mut Ctx, name: &str, s: &T, m: 
     Ok(())
 }
 
+/// The checks as run through the `&T` forwarding implementations (`Index` has none).
+pub mod fw {
+    pub use super::{count, rank, select, select_zero};
+    use super::*;
+    pub fn index<T>(_cx: &mut Ctx, _name: &str, _s: &T, _m: &Model, _p: &Params) -> R {
+        Ok(())
+    }
+}
+
 // ---- the menu ---------------------------------------------------------------
 
 macro_rules! entry {
@@ -196,6 +205,11 @@ macro_rules! entry {
             run: |cx: &mut Ctx, $b: BitVec, m: &Model, $p: &Params, what: What| -> R {
                 let s = cx.must(&format!("build {}", $name), || $build)?;
                 $( if what.$chk { $chk(cx, $name, &s, m, $p)?; } )+
+                // the same through the `&T` forwarding implementations of the traits
+                if $p.seed % 4 == 0 {
+                    let r = &s;
+                    $( if what.$chk { fw::$chk(cx, $name, &r, m, $p)?; } )+
+                }
                 Ok(())
             },
         }
